@@ -158,11 +158,6 @@ def strs2 (h : Heap) (l r : Option Id) : Heap × Outcome (Bytes × Bytes) :=
   | (h1, .err e) => (h1, .err e)
   | (h1, .panic s) => (h1, .panic s)
 
-def liftErr {α β : Type} : Heap × Outcome α → (Heap → α → Heap × Outcome β) → Heap × Outcome β
-  | (h, .ok a), f => f h a
-  | (h, .err e), _ => (h, .err e)
-  | (h, .panic s), _ => (h, .panic s)
-
 def sBytes (s : String) : Bytes := s.toUTF8.toList
 
 /-- the built-in operations of math.go, by name -/
